@@ -1920,3 +1920,23 @@ twin('C18', 'copyfile-length-check-raise', RZPY, 'copyfile',
 ''', '''    if ndone != n:
         raise OSError('short read from %s' % options.file)
 ''')
+breaker('C17', 'record-iterator-stops-at-bad-record', 'C17.R9', FSPY,
+        'TransactionRecordIterator.__next__',
+        'raise CorruptedDataError(h.oid, None, pos)', 'break')
+breaker('C17', 'read-index-skips-bad-record', 'C17.R9', FSPY, 'read_index',
+        '''                panic("%s data record exceeds transaction record at %s",
+                      name, pos)''',
+        '''                logger.warning("%s data record exceeds transaction record "
+                               "at %s", name, pos)
+                break''')
+twin('C18', 'backup-locals-renamed', RZPY, 'do_backup',
+     '''        srcsum_backedup = checksum(srcfp, reposz)
+        srcfp.close()
+        log('current state   : %s bytes, md5: %s', srcsz, srcsum)
+        log('backed up state : %s bytes, md5: %s', reposz, srcsum_backedup)
+        # Has nothing changed?
+        if srcsz == reposz and srcsum == reposum:''',
+     '''        prefix_digest = srcsum_backedup = checksum(srcfp, reposz)
+        srcfp.close()
+        whole_digest = srcsum
+        if srcsz == reposz and whole_digest == reposum:''')
